@@ -1,5 +1,5 @@
 (* C15 — durations, instants and metadata round-trip through their XML text forms *)
-From Saml Require Import Base DurationModel DurationProofs TimeModel TimeProofs.
+From Saml Require Import Base DurationModel DurationProofs TimeModel TimeProofs Metadata MetadataProofs.
 
 (* Every Duration marshals to text that unmarshals to the identical duration:
    for every int64 value, including 0 (the nil text) and MinInt64. *)
@@ -27,3 +27,50 @@ Theorem calendar_roundtrip :
             days_of_civil y m d = z /\ 1 <= m <= 12 /\ 1 <= d <= days_in_month y m.
 Proof. exact civil_roundtrip. Qed.
 Print Assumptions calendar_roundtrip.
+
+(* ---- metadata clause: any EntityDescriptor value reaches a fixed point after one
+   marshal/unmarshal generation that preserves its entity ID, http(s) endpoints, key
+   descriptors, validity instant (to the millisecond) and cache duration.  Metadata.norm is one
+   generation on the abstract descriptor: the RelaxedTime text codec on validUntil, the Duration
+   text codec on cacheDuration, Endpoint/IndexedEndpoint.UnmarshalXML's location check on every
+   endpoint; it is compared on every run with xml.Marshal followed by xml.Unmarshal of generated
+   EntityDescriptor values. ---- *)
+Theorem metadata_norm_idempotent :
+  forall m m',
+  zero_time <= round_ms (ed_valid_until m) < year10000 -> in_int64 (ed_cache_duration m) ->
+  norm m = Ok m' -> norm m' = Ok m'.
+Proof. exact norm_idempotent. Qed.
+Print Assumptions metadata_norm_idempotent.
+
+Theorem norm_preserves :
+  forall m m',
+  zero_time <= round_ms (ed_valid_until m) < year10000 -> in_int64 (ed_cache_duration m) ->
+  norm m = Ok m' ->
+  ed_entity_id m' = ed_entity_id m /\
+  ed_valid_until m' = round_ms (ed_valid_until m) /\
+  ed_cache_duration m' = ed_cache_duration m /\
+  ed_keys m' = ed_keys m /\
+  ed_role_valid_until m' = ed_role_valid_until m /\ ed_role_cache m' = ed_role_cache m /\
+  Forall2 ep_related (ed_endpoints m) (ed_endpoints m') /\
+  Forall2 (fun a b => standard (binding_of_any (snd a)) = true -> b = a) (ed_endpoints m) (ed_endpoints m').
+Proof. exact MetadataProofs.norm_preserves. Qed.
+Print Assumptions norm_preserves.
+
+Theorem metadata_norm_defined_iff :
+  forall m,
+  zero_time <= round_ms (ed_valid_until m) < year10000 -> in_int64 (ed_cache_duration m) ->
+  (exists m', norm m = Ok m') <-> (exists eps, norm_endpoints (ed_endpoints m) = Ok eps).
+Proof. exact norm_fails_iff. Qed.
+Print Assumptions metadata_norm_defined_iff.
+
+(* the monitor evaluated on the implementation's generations (fixed point after
+   one generation; entity ID, rounded validity instant, cache duration, key
+   descriptors and standard-binding endpoints preserved, others blanked) is
+   always satisfied by the model *)
+Theorem metadata_norm_meets_monitor :
+  forall m,
+  zero_time <= round_ms (ed_valid_until m) < year10000 -> in_int64 (ed_cache_duration m) ->
+  mgcase_spec {| mg_in := m; mg_gen1 := ed_obs (norm m);
+                 mg_gen2 := match norm m with Ok m1 => ed_obs (norm m1) | _ => None end |} = true.
+Proof. exact norm_meets_spec. Qed.
+Print Assumptions metadata_norm_meets_monitor.
